@@ -101,9 +101,17 @@ func propTable() map[string]*PropSpec {
 		for _, l := range []int{0, 1, 2, 3, 4, 5, 6, 7, 8, 12, 16, 20, 24} {
 			th = append(th, rc(fmt.Sprintf("C12_Bytes/len=%d", l), ".", "C12_Bytes", map[string]int{"len": l}))
 		}
+		for kind := 0; kind <= 4; kind++ {
+			c := rc(fmt.Sprintf("C12_Mutate/kind=%d", kind), ".", "C12_Mutate", map[string]int{"kind": kind})
+			c.RequireReach = []string{"C12.mutate.forwarded", "C12.mutate.followup"}
+			th = append(th, c)
+			if kind >= 1 && kind <= 3 {
+				q = append(q, c)
+			}
+		}
 		t["C12"] = &PropSpec{ID: "C12", Quick: q, Thorough: th,
 			Assumptions: []string{"channel model: the harness plays the sending goroutine (one pending send on messagesChannel); the loop context is cancelled when the loop is idle"},
-			Bounds:      []string{"fully symbolic content bytes of length <= 16 (quick) / <= 24 (thorough), with and without a block; one iteration of MainLoop.run then one of WorkerLoop.Run"},
+			Bounds:      []string{"fully symbolic content bytes of length <= 16 (quick) / <= 24 (thorough), with and without a block; one iteration of MainLoop.run then one of WorkerLoop.Run", "structured mutation: a genuine PREPARE / COMMIT / VIEW_CHANGE-with-proof (quick) and also PREPREPARE / NEW_VIEW-with-votes (thorough), 60..400 bytes, with one 4-byte aligned window at a symbolic position replaced by arbitrary bytes, through MainLoop.run and the worker's handler, followed by an honest round that must still commit"},
 			Outside:     []string{"byte strings longer than 24; govnr restarts; survival beyond the follow-up round"},
 		}
 	}
@@ -112,7 +120,10 @@ func propTable() map[string]*PropSpec {
 		var q, th []RunConfig
 		mk := func(h string, params map[string]int, reach string) RunConfig {
 			name := h
-			for _, k := range []string{"idlen", "hashlen", "prepares", "proof", "votes", "proofmask", "commits"} {
+			if _, ok := params["shape"]; !ok && (h == "C20_ViewChange" || h == "C20_NewView") {
+				params["shape"] = 0
+			}
+			for _, k := range []string{"idlen", "hashlen", "prepares", "proof", "votes", "proofmask", "commits", "shape"} {
 				if v, ok := params[k]; ok {
 					name += fmt.Sprintf("/%s=%d", k, v)
 				}
@@ -162,6 +173,15 @@ func propTable() map[string]*PropSpec {
 				}
 			}
 		}
+		// shapes no correct node produces but the factory accepts: PREPAREs of another view, proof without PREPREPARE
+		for _, shape := range []int{1, 2} {
+			for _, pr := range []int{1, 2} {
+				c := mk("C20_ViewChange", map[string]int{"idlen": 1, "hashlen": 2, "prepares": pr, "proof": 1, "shape": shape}, "C20.VC.done")
+				c2 := mk("C20_NewView", map[string]int{"idlen": 2, "hashlen": 1, "votes": 2, "prepares": pr, "proofmask": 3, "shape": shape}, "C20.NV.done")
+				th = append(th, c, c2)
+				q = append(q, c, c2)
+			}
+		}
 		for commits := 1; commits <= 4; commits++ {
 			for _, il := range []int{1, 2, 5} {
 				c := mk("C20_BlockProof", map[string]int{"idlen": il, "hashlen": il + 1, "commits": commits}, "C20.proof.done")
@@ -197,9 +217,15 @@ func propTable() map[string]*PropSpec {
 				}
 			}
 		}
+		for kind := 0; kind <= 2; kind++ {
+			c := rc(fmt.Sprintf("C08_FutureMessage/kind=%s", kinds[kind]), ".", "C08_FutureMessage", map[string]int{"kind": kind})
+			c.RequireReach = []string{"C08.future.influence"}
+			q = append(q, c)
+			th = append(th, c)
+		}
 		t["C08"] = &PropSpec{ID: "C08", Quick: q, Thorough: th,
 			Assumptions: []string{"ideal signature registry; block commitment / proposal validation stubs (zzverifstub); committee of 4 with equal weights; node index symbolic (0..3)", "every adversarial field is symbolic: instance, header type tag, height, view (64 bit), hash byte, sender id byte (members and outsiders), signature validity bit + 8 arbitrary bytes, share validity, block presence/fields, all proof fields"},
-			Bounds:      []string{"one symbolic message per run, delivered through RawMessageFilter -> ConsensusMessagesFilter -> TermInCommittee in 6 prefix states (fresh, proposal accepted, prepared, timed out with/without lock, committed); prepared proofs with <= 3 PREPARE senders; hashes and ids one byte long"},
+			Bounds:      []string{"one symbolic message per run, delivered through RawMessageFilter -> ConsensusMessagesFilter -> TermInCommittee in 6 prefix states (fresh, proposal accepted, prepared, timed out with/without lock, committed); plus one symbolic PREPREPARE/PREPARE/COMMIT received at height 1 followed by a sync to a symbolic later height (future-cache path); prepared proofs with <= 3 PREPARE senders; hashes and ids one byte long"},
 			Outside:     []string{"two or more adversarial messages in sequence (covered for specific shapes by C10/C01 harnesses); committees other than 4 equal-weight members; NEW_VIEW contents (C07)"},
 		}
 	}
@@ -207,16 +233,25 @@ func propTable() map[string]*PropSpec {
 	{
 		var q, th []RunConfig
 		nv := func(pf, votes, mask, prep int) RunConfig {
-			c := rc(fmt.Sprintf("C07_NewView/prefix=%d/votes=%d/proofmask=%d/prepares=%d", pf, votes, mask, prep), ".", "C07_NewView", map[string]int{"prefix": pf, "votes": votes, "proofmask": mask, "prepares": prep, "me": -1})
+			c := rc(fmt.Sprintf("C07_NewView/prefix=%d/votes=%d/proofmask=%d/prepares=%d", pf, votes, mask, prep), ".", "C07_NewView", map[string]int{"prefix": pf, "votes": votes, "proofmask": mask, "prepares": prep, "me": -1, "prepares2": -1})
 			c.MaxPaths = 400000
 			return c
 		}
+		// two proof-carrying votes: only the one with the highest proof view is validated together with its
+		// proof by the code, the other one must still be a genuine vote
+		two := nv(3, 3, 3, 2)
+		two.Name += "/prepares2=0/me=2"
+		two.Params["prepares2"] = 0
+		two.Params["me"] = 2
 		locked := nv(3, 3, 1, 2)
 		locked.Name += "/me=2"
 		locked.Params["me"] = 2
-		q = append(q, nv(3, 3, 0, 0), nv(3, 2, 0, 0), nv(0, 3, 0, 0), locked)
+		_ = locked // single-proof variant: thorough tier only (the two-proof configuration covers the locked path)
+		q = append(q, nv(3, 3, 0, 0), nv(3, 2, 0, 0), nv(0, 3, 0, 0), two)
+		th = append(th, locked, two)
 		q[0].RequireReach = []string{"C07.accepted_fresh"}
 		q[3].RequireReach = []string{"C07.accepted_locked"}
+		q[3].MaxPaths = 400000
 		for _, pf := range []int{0, 3} {
 			c := rc(fmt.Sprintf("C07_BarePreprepare/prefix=%d", pf), ".", "C07_BarePreprepare", map[string]int{"prefix": pf})
 			q = append(q, c)
@@ -245,15 +280,36 @@ func propTable() map[string]*PropSpec {
 		q := []RunConfig{mk(1, 2, 1), mk(1, 1, 2), mk(0, 1, 2), mk(1, 3, 1), mk(2, 0, 3)}
 		th := append([]RunConfig{}, q...)
 		th = append(th, mk(0, 0, 3), mk(3, 1, 2), mk(3, 2, 2), mk(0, 2, 2), mk(1, 0, 3))
+		for _, me := range []int{1, 2, 3} {
+			c := rc(fmt.Sprintf("C03_FutureCommit/me=%d", me), ".", "C03_FutureCommit", map[string]int{"me": me})
+			c.RequireReach = []string{"C03.future.two_heights"}
+			th = append(th, c)
+			if me == 1 {
+				q = append(q, c)
+			}
+		}
+		q4 := append([]RunConfig{}, q...)
+		th4 := append([]RunConfig{}, th...)
+		for _, me := range []int{0, 2} {
+			for _, mask := range []int{0, 1} {
+				c := rc(fmt.Sprintf("C04_NewViewCommit/me=%d/proofmask=%d", me, mask), ".", "C04_NewViewCommit", map[string]int{"me": me, "proofmask": mask})
+				c.RequireReach = []string{"C04.nv.committed"}
+				c.MaxPaths = 400000
+				th4 = append(th4, c)
+				if me == 2 {
+					q4 = append(q4, c)
+				}
+			}
+		}
 		common := []string{"ideal signature registry, proposal/commitment stubs, committee of 4 equal weights", "the validating peer is a second real WorkerLoop with the same committee and (empty) previous proof"}
 		t["C03"] = &PropSpec{ID: "C03", Quick: q, Thorough: th, LabelPrefixes: []string{"C03."},
 			Assumptions: common,
 			Bounds:      []string{"one node (leader or follower) holding the view-0 proposal receives h genuine COMMITs then k fully symbolic COMMITs (h+k<=4, k<=3; header type tag, instance, height, view, hash, sender incl. outsiders with valid keys, signature and share validity all symbolic); also exercised at every commit of the C01 runs"},
 			Outside:     []string{"commits in views > 0 other than those of the C01/C09 runs; committees other than 4 equal-weight members"},
 		}
-		t["C04"] = &PropSpec{ID: "C04", Quick: q, Thorough: th, LabelPrefixes: []string{"C04."},
+		t["C04"] = &PropSpec{ID: "C04", Quick: q4, Thorough: th4, LabelPrefixes: []string{"C04."},
 			Assumptions: common,
-			Bounds:      []string{"same runs as C03; 'approved by a correct member' is judged at the committing node itself: the block was approved by its own ValidateBlockProposal or produced by its own RequestNewBlockProposal"},
+			Bounds:      []string{"same runs as C03, plus: a node that timed out receives one entirely symbolic NEW_VIEW (3 votes, with/without a prepared proof) followed by genuine PREPAREs/COMMITs for whatever it accepted; 'approved by a correct member' = approved by this node's own ValidateBlockProposal, produced by its own RequestNewBlockProposal, or certified by a valid prepared proof of a genuine vote (correct members only PREPARE what their consumer approved)"},
 			Outside:     []string{"approval by *another* correct member only (multi-node; see C01 harness)"},
 		}
 	}
@@ -291,8 +347,8 @@ func propTable() map[string]*PropSpec {
 		}
 		for _, me := range []int{0, 1, 2} {
 			for _, pf := range []int{0, 1, 2, 4} {
-				for a := 0; a <= 5; a++ {
-					for b := 0; b <= 5; b++ {
+				for a := 0; a <= 6; a++ {
+					for b := 0; b <= 6; b++ {
 						if a == 5 {
 							continue // nothing to re-deliver yet
 						}
@@ -305,14 +361,14 @@ func propTable() map[string]*PropSpec {
 				}
 			}
 		}
-		for _, seq := range []int{4, 40, 44, 404, 440, 414, 441, 144, 43, 434, 34, 340, 341, 403, 413, 12, 120, 124, 412, 421, 241, 142} {
+		for _, seq := range []int{4, 40, 44, 404, 440, 414, 441, 144, 43, 434, 34, 340, 341, 403, 413, 12, 120, 124, 412, 421, 241, 142, 466, 646, 664, 661, 616, 166, 665, 656, 460, 640} {
 			for _, me := range []int{1, 2} {
 				th = append(th, mk(me, 2, 3, seq), mk(me, 0, 3, seq))
 			}
 		}
 		t["C10"] = &PropSpec{ID: "C10", Quick: q, Thorough: th,
 			Assumptions: []string{"ideal signature registry, proposal/commitment stubs; committee of 4 equal weights"},
-			Bounds:      []string{"one node (index 0..2) in prefix states fresh / proposal accepted / prepared / timed out with lock, then 2 (quick) or 2..3 (thorough) events, each a fully symbolic PREPREPARE / PREPARE / COMMIT / proof-less VIEW_CHANGE, an election timeout, or the re-delivery of the previous message; outbox invariants checked after every event; an adversarial message without influence ends the path"},
+			Bounds:      []string{"one node (index 0..2) in prefix states fresh / proposal accepted / prepared / timed out with lock, then 2 (quick) or 2..3 (thorough) events, each a fully symbolic PREPREPARE / PREPARE / COMMIT / proof-less VIEW_CHANGE, an election timeout, the re-delivery of the previous message, or a well-formed NEW_VIEW (current or next view, symbolic block) from that view's leader; outbox invariants checked after every event; an adversarial message without influence ends the path"},
 			Outside:     []string{"sequences longer than 3 events; NEW_VIEW and proof-carrying votes as events (their acceptance conditions are C07/C08; their effect on the outbox is exercised in C09/C11/C01 harnesses)"},
 		}
 	}
@@ -334,9 +390,14 @@ func propTable() map[string]*PropSpec {
 			c.RequireReach = []string{"C11.P.delivered", "C11.C.delivered"}
 			return c
 		}
-		q := []RunConfig{mkV(2, 1), mkV(3, 2), mkN(1, -1), mkN(1, 2), mkP(2), mkP(1)}
+		mkX := func(p, r int) RunConfig {
+			c := rc(fmt.Sprintf("C11_NextViewPrepare/p=%d/r=%d", p, r), ".", "C11_NextViewPrepare", map[string]int{"p": p, "r": r})
+			c.RequireReach = []string{"C11.P.future_view"}
+			return c
+		}
+		q := []RunConfig{mkV(2, 1), mkV(3, 2), mkN(1, -1), mkN(1, 2), mkP(2), mkP(1), mkX(0, 3), mkX(3, 0), mkX(0, 2)}
 		th := append([]RunConfig{}, q...)
-		th = append(th, mkV(3, 1), mkV(2, 2), mkN(0, -1), mkN(2, -1), mkN(1, 0), mkN(1, 3), mkN(2, 2), mkP(3))
+		th = append(th, mkV(3, 1), mkV(2, 2), mkN(0, -1), mkN(2, -1), mkN(1, 0), mkN(1, 3), mkN(2, 2), mkP(3), mkX(2, 0), mkX(2, 3), mkX(3, 2))
 		t["C11"] = &PropSpec{ID: "C11", Quick: q, Thorough: th,
 			Assumptions: []string{"ideal signature registry, proposal/commitment stubs; committee of 4 equal weights; producer and consumer are two real nodes sharing registry and committee"},
 			Bounds:      []string{"producer accepts <=2 fully symbolic adversarial inputs (PREPAREs before its vote; VIEW_CHANGEs with/without proof before its NEW_VIEW) plus listed honest traffic; every VIEW_CHANGE / NEW_VIEW / PREPARE / COMMIT it then emits is delivered to a correct peer in a state satisfying the statement's precondition (leader of the addressed view; view not higher, no proposal yet)"},
@@ -355,7 +416,12 @@ func propTable() map[string]*PropSpec {
 		q[0].RequireReach = []string{"C17.advanced"}
 		th := []RunConfig{mk(3), mk(4), mk(5)}
 		th[0].RequireReach = []string{"C17.advanced"}
-		t["C17"] = &PropSpec{ID: "C17", Quick: q, Thorough: th,
+		// the real worker: cached traffic that completes its height from inside the start of the round
+		fr := rc("C13_FutureRound/me=1", ".", "C13_FutureRound", map[string]int{"me": 1})
+		fr.RequireReach = []string{"C13.future.committed_from_cache"}
+		q = append(q, fr)
+		th = append(th, fr)
+		t["C17"] = &PropSpec{ID: "C17", Quick: q, Thorough: th, LabelPrefixes: []string{"C17."},
 			Assumptions: []string{"messages are PREPAREs built with the real factory; the message number is carried in the (concrete) view field; reading of the ordering clause: 'before it' = before the node starts height H (DESIGN.md section 6/C17)"},
 			Bounds:      []string{"k operations (quick 3 and 4, thorough up to 5), each a symbolic choice of receive(message with symbolic 64-bit height, symbolic instance, symbolic sender byte) or advance(symbolic larger height); start height symbolic >= 1"},
 			Outside:     []string{"sequences longer than 5 operations"},
@@ -407,7 +473,15 @@ func propTable() map[string]*PropSpec {
 			c3 := rc(fmt.Sprintf("C13_Worker/me=%d/events=3", me), ".", "C13_Worker", map[string]int{"me": me, "events": 3})
 			th = append(th, c, c3)
 		}
-		t["C13"] = &PropSpec{ID: "C13", Quick: q, Thorough: th,
+		for _, me := range []int{1, 2, 3} {
+			c := rc(fmt.Sprintf("C13_FutureRound/me=%d", me), ".", "C13_FutureRound", map[string]int{"me": me})
+			c.RequireReach = []string{"C13.future.committed_from_cache"}
+			th = append(th, c)
+			if me == 1 {
+				q = append(q, c)
+			}
+		}
+		t["C13"] = &PropSpec{ID: "C13", Quick: q, Thorough: th, LabelPrefixes: []string{"C13."},
 			StaticChecks: []func(eng *Engine) (string, bool, string){staticSingleWriter},
 			Assumptions:  []string{"sequential reduction: State methods are mutex-atomic and (statically checked each run) height/view are written only by the State mutators reached from the worker, so every interleaving of the two goroutines is a sequence of worker events with context cancellations interleaved at SPI calls"},
 			Bounds:       []string{"State mutators: 2..3 operations with symbolic arguments from a symbolic state; worker: symbolic start height, then 2 (quick) / 3 (thorough) events out of {honest commit round with symbolic callback failure, sync to a symbolic height, election timeout, re-delivered traffic of the previous height}"},
@@ -435,6 +509,39 @@ func propTable() map[string]*PropSpec {
 			Assumptions:  []string{"same sequential reduction as C13; the main loop is (statically checked) the only sender on the worker's update-state channel"},
 			Bounds:       []string{"worker: symbolic start height and symbolic sync height (older / equal / newer), followed by a second older sync; main loop: 1..3 UpdateState calls with symbolic heights, worker channel empty or pre-filled, in the channel model"},
 			Outside:      []string{"real-time 'indefinitely'; syncs racing a commit on the real scheduler"},
+		}
+	}
+	// ---------------- C01 ----------------
+	{
+		mk := func(byz, prefix, timeout, steps, kinds, class, redeliver, recipients int) RunConfig {
+			c := rc(fmt.Sprintf("C01_Run/byz=%d/prefix=%d/timeout=%d/kinds=%0*d/class=%d/redeliver=%d/recipients=%d", byz, prefix, timeout, steps, kinds, class, redeliver, recipients), ".", "C01_Run",
+				map[string]int{"byz": byz, "prefix": prefix, "timeout": timeout, "steps": steps, "kinds": kinds, "class": class, "redeliver": redeliver, "recipients": recipients})
+			c.MaxPaths = 600000
+			return c
+		}
+		q := []RunConfig{
+			mk(1, 2, 1, 2, 2, 1, 0, 3),  // known-finding class S7: bare PREPREPARE(view>0) then COMMIT
+			mk(1, 2, 1, 2, 2, 2, 0, 3),  // same with the class excluded
+			mk(1, 2, 1, 2, 52, 0, 0, 3), // forged / replayed NEW_VIEW then COMMIT
+			mk(1, 2, 1, 2, 62, 0, 0, 3), // NEW_VIEW with a proof-carrying vote then COMMIT
+			mk(1, 2, 1, 1, 5, 0, 1, -1), // NEW_VIEW to a symbolic subset, then all delayed honest traffic arrives
+			mk(1, 2, 1, 2, 12, 0, 0, 3), // PREPARE then COMMIT
+			mk(1, 1, 1, 2, 22, 0, 1, 3), // two COMMITs, all locked, nobody committed yet
+		}
+		q[2].RequireReach = []string{"C01.some_commit"}
+		th := append([]RunConfig{}, q...)
+		eq := mk(0, 0, 0, 2, 0, 0, 1, -1) // Byzantine first leader: two proposals to symbolic subsets (class 0: view unrestricted)
+		eq.Params["kinds"] = 0
+		th = append(th, eq)
+		th = append(th,
+			mk(1, 2, 1, 2, 2, 2, 0, -1), mk(1, 2, 1, 2, 52, 0, 0, -1), mk(1, 2, 1, 2, 32, 0, 0, 3), mk(1, 2, 1, 2, 42, 0, 0, 3),
+			mk(1, 1, 1, 2, 52, 0, 0, 3), mk(1, 1, 1, 2, 2, 2, 1, 3), mk(3, 2, 1, 2, 52, 0, 0, 3), mk(3, 2, 1, 2, 2, 2, 0, 3),
+			mk(1, 2, 1, 3, 522, 0, 0, 3), mk(1, 2, 1, 3, 122, 0, 0, 3), mk(0, 0, 0, 3, 2, 2, 0, 3), mk(0, 0, 1, 2, 52, 0, 1, 3))
+		th[len(th)-2].Params["kinds"] = 2 // 002
+		t["C01"] = &PropSpec{ID: "C01", Quick: q, Thorough: th, LabelPrefixes: []string{"C01."},
+			Assumptions: []string{"ideal signature registry with the unforgeability assumption: genuine signatures only under the Byzantine member's and outsiders' keys, byte-exact replays of anything signed earlier in the run allowed", "proposal validation / commitment stubs; committee of 4 equal weights (f=1), one Byzantine member", "honest traffic is flushed FIFO to all correct nodes after each adversarial step; message loss only as listed in the prefixes; optional re-delivery of everything sent so far (delay/duplication)"},
+			Bounds:      []string{"n=4, one Byzantine member (index 1 quick; 0,1,3 thorough); prefixes: nothing / all correct nodes locked on the honest view-0 proposal / additionally one correct node committed it with the help of a genuine Byzantine COMMIT, each optionally followed by election timeouts; then <=2 (quick) / <=3 (thorough) fully symbolic adversarial multicasts of listed kinds (PREPREPARE, PREPARE, COMMIT, VIEW_CHANGE with/without proof, NEW_VIEW with 3 votes with/without proof) to a fixed or symbolic subset of correct nodes"},
+			Outside:     []string{"this is NOT a proof of agreement for all schedules: anything beyond the listed prefixes, more than 3 adversarial steps, other delivery orders, committees > 4, more than one Byzantine member"},
 		}
 	}
 	return t
